@@ -42,6 +42,7 @@ func init() {
 		}
 		return []*vexplore.Scenario{
 			{Name: "handshake-single-byte-deviation", Mode: "enum", Reset: kit.ResetGlobals, Body: hsDeviation, NeedCounters: []string{"rejected", "good-peer-after"}},
+			{Name: "refused-handshakes-in-a-row-then-a-good-peer", Mode: "enum", Reset: kit.ResetGlobals, Body: RefusedInARow, NeedCounters: []string{"good-peer-served-promptly-after-three-or-more-refusals"}},
 			{Name: "handshake-truncated-or-stalled", Mode: "enum", Reset: kit.ResetGlobals, Body: hsTruncated, NeedCounters: []string{"truncated", "stalled-does-not-delay-others"}},
 			{Name: "frame-length-field", Mode: "enum", Reset: kit.ResetGlobals, Body: frameLengths, NeedCounters: []string{"too-long-dropped-at-once", "in-limit-delivered", "negative-dropped", "limit-set-after-listen"}},
 			{Name: "frame-truncated-everywhere", Mode: "enum", Reset: kit.ResetGlobals, Body: frameTruncated, NeedCounters: []string{"truncated-nothing-delivered"}},
@@ -213,6 +214,59 @@ func hsDeviation() {
 	v.exchange(g, "after a rejected handshake")
 	kit.Count("good-peer-after")
 	kit.Observe("%s pos=%d", k.Name, pos)
+	kit.Must("Close", func() { _ = v.x.S.Close() })
+}
+
+// RefusedInARow: 1..12 connections in a row whose handshake is refused (wrong protocol number, bad
+// first byte, or the peer hangs up half way) - nothing else in between - and then, at once, a
+// well-behaved peer.  The accept loop pauses 10 ms after every failed accept, so n refusals at one
+// instant may cost the good peer up to n x 10 ms (virtual time) - but no more: the price of a refusal
+// does not grow with the number of refusals before it.  Then the good peer is served.
+func RefusedInARow() {
+	pickScheme()
+	k := kinds.ByName([]string{"pull", "rep"}[kit.ChooseFree(2)])
+	n := []int{1, 2, 3, 4, 5, 8, 12}[kit.ChooseFree(7)]
+	how := kit.ChooseFree(3)
+	v := open(k, -1)
+	for i := 0; i < n; i++ {
+		hdr := spHeader(v.x.S.Info().Peer)
+		h := v.ep.Connect()
+		switch how {
+		case 0:
+			hdr[5] ^= 0x11
+			h.Feed(hdr)
+		case 1:
+			hdr[0] = 0xff
+			h.Feed(hdr)
+		case 2:
+			h.Feed(hdr[:3+i%4])
+			h.EOF()
+		}
+		kit.Quiesce()
+		if v.attached != 0 {
+			kit.Failf("bad-handshake-accepted", "%s: refused handshake number %d was accepted", k.Name, i+1)
+		}
+	}
+	t0 := kit.Now()
+	before := v.attached
+	g := v.ep.Connect()
+	g.Feed(spHeader(v.x.S.Info().Peer))
+	kit.Quiesce()
+	for v.attached == before && kit.Now()-t0 < 10*time.Second {
+		kit.Sleep(10 * time.Millisecond)
+		kit.Quiesce()
+	}
+	if v.attached == before {
+		kit.Failf("good-peer-not-attached:after-refusals", "%s over %s: after %d refused handshakes in a row a well-behaved peer was not attached within 10 s", k.Name, scheme, n)
+	}
+	if d := kit.Now() - t0; d > time.Duration(n+1)*10*time.Millisecond {
+		kit.Failf("good-peer-delayed-by-refused-handshakes", "%s over %s: after %d refused handshakes in a row a well-behaved peer had to wait %v to be attached (the pause after one refusal is 10 ms: at most %d ms are accounted for)", k.Name, scheme, n, d, (n+1)*10)
+	}
+	v.exchange(g, "after refused handshakes in a row")
+	if n >= 3 {
+		kit.Count("good-peer-served-promptly-after-three-or-more-refusals")
+	}
+	kit.Observe("%s %s n=%d how=%d", scheme, k.Name, n, how)
 	kit.Must("Close", func() { _ = v.x.S.Close() })
 }
 
